@@ -39,10 +39,11 @@ def is_tree_store(f, e):
 
 
 class Summ:
-    __slots__ = ('exits', 'exits3', 'may_alloc', 'violations', 'effect_any')
+    __slots__ = ('exits', 'exits3', 'may_alloc', 'violations', 'effect_any', 'exit_why')
 
     def __init__(self):
         self.exits = set()
+        self.exit_why = {}       # (effect, return class) -> (description of the first committed effect, location of the return)
         self.exits3 = set()      # (effect, return class, frozenset of (param index, 'null' | 'nonnull') for `*param = pointer` out-stores)
         self.may_alloc = False
         self.violations = []
@@ -50,8 +51,10 @@ class Summ:
 
 
 class Effects:
-    def __init__(self, cfg, prune_callee=lambda sig: False, tree_only=False):
+    def __init__(self, cfg, prune_callee=lambda sig: False, tree_only=False, obsolete_only=False):
         self.cfg = cfg
+        self.obsolete_only = obsolete_only  # effects = obsoletion of a lock only (implies tree_only)
+        tree_only = tree_only or obsolete_only
         self.tree_only = tree_only      # effects = stores into the tree / obsoletion only (statistics, QSBR bookkeeping ignored)
         self.prune = prune_callee
         self.summ = {}
@@ -218,6 +221,10 @@ class FnEff:
             eff = 'atomic update of `%s`' % (atomics_path(f, e),)
         if self.an.tree_only and eff is not None and not (eff.startswith('store into the tree') or eff == 'obsoletion'):
             eff = None
+        if self.an.obsolete_only and eff is not None and eff != 'obsoletion':
+            eff = None
+        if eff == 'obsoletion':
+            eff = 'obsoletion (%s)' % nm
         # callee with a body under the repository: its own summary
         tg = f.callee(e) if e.get('cid') is not None else None
         callee_allocs = False
@@ -243,6 +250,8 @@ class FnEff:
     def callee_effect_published(self, e, tg):
         """does the callee's effect touch anything that is not a fresh local of this function?"""
         f = self.f
+        if self.an.obsolete_only:
+            return self.an.summary(tg).effect_any
         ws = self.an.writes()
         roots = set(ws.writes.get(tg.sig, ())) | set(ws.retires.get(tg.sig, ()))
         s = self.an.summary(tg)
@@ -343,6 +352,8 @@ class FnEff:
                         elif k == 'return':
                             rc = self.retclass(e, w2)
                             out.exits.add((('Eff',) in w2, rc))
+                            if ('Eff',) in w2:
+                                out.exit_why.setdefault((True, rc), (next((x[1] for x in w2 if x[0] == 'Why'), 'a committed effect'), e.get('loc')))
                             out.exits3.add((('Eff',) in w2, rc, frozenset((x[1], x[2]) for x in w2 if x[0] == 'Out')))
                         nxt.add(w2)
                 cur = nxt
